@@ -441,6 +441,11 @@ def rule_E1(ctx, repo, eng):
         k = 'ser_read:%s:%s' % (fi.qualname.replace('bitcoin.core.', ''), norm(c))
         seen[k] = seen.get(k, 0) + 1
         key = k if seen[k] == 1 else '%s#%d' % (k, seen[k])
+        # the truncation error of this read reaches the caller: no enclosing handler turns a strict prefix into something else
+        h_ = common.catching_handler(repo, fi, c, 'bitcoin.core.serialize.SerializationTruncationError')
+        if h_ is not None:
+            r.violated('caught:' + key, common.site_of(fi, c), 'the truncation error raised by `%s` in %s is caught by `except %s`: a strict prefix of a valid encoding no longer raises '
+                       'SerializationTruncationError (it is re-parsed, swallowed or re-labelled)' % (norm(c), fi.qualname, norm(h_.type) if h_.type is not None else ''), sure=True)
         # argument range is non-negative
         arg = c.args[1] if len(c.args) == 2 else None
         v = repo.fold(arg, fi.module, cls=fi.cls) if arg is not None else UNKNOWN
@@ -454,6 +459,15 @@ def rule_E1(ctx, repo, eng):
                 r.violated(key, common.site_of(fi, c), src[1])
             else:
                 r.undecided(key, common.site_of(fi, c), src[1])
+    for fi in repo.functions.values():
+        if fi.module.relpath in CORE_FILES and fi.name in ('stream_deserialize', 'deserialize'):
+            for c in common.iter_calls(fi.node):
+                if isinstance(c.func, ast.Attribute) and c.func.attr == 'stream_deserialize':
+                    h_ = common.catching_handler(repo, fi, c, 'bitcoin.core.serialize.SerializationTruncationError')
+                    if h_ is not None:
+                        r.violated('caught:%s:%s' % (fi.qualname.replace('bitcoin.core.', ''), norm(c)[:50]), common.site_of(fi, c),
+                                   'a truncation error raised inside `%s` (in %s) is caught by `except %s`: a strict prefix of a valid encoding no longer raises SerializationTruncationError'
+                                   % (norm(c)[:60], fi.qualname, norm(h_.type) if h_.type is not None else ''), sure=True)
     allowed_raw = {'bitcoin.core.serialize.ser_read', 'bitcoin.core.serialize.Serializable.deserialize'}
     for fi, c in common.raw_read_sites(repo, CORE_FILES):
         key = 'raw-read:%s' % fi.qualname.replace('bitcoin.core.', '')
